@@ -29,13 +29,14 @@
         it), `e?` (`question_mark`); record literals (`record`) and field access (`access`);
       - script-function calls (`Value::Call`; the callee's structured MIR runs from a store
         holding its parameters);
+      - f-strings (`f_string`: parts converted and appended one after the other);
       - enum constructors `E.V(args…)` (`enum_constructor` + `make_enum`);
       - `match` (`r#match` / `match_case`): guard chains per discriminant with the `_` arms
         woven in, in source order; shared arm blocks.
   * the temporary counter `tmp_idx` (both `tmp()` and `undropped_tmp()` bump it).
 
-  Not modelled in this version (`lowerE` returns `none`): `for`, lists, f-strings; a `match` with a pattern naming a
-  variant the examinee's type does not have; the `stack_slots` bookkeeping and the `drop` instructions (they
+  Not modelled in this version (`lowerE` returns `none`): `for` and list literals (lists are shared
+  handles: they need a heap); a `match` with a pattern naming a variant the examinee's type does not have; the `stack_slots` bookkeeping and the `drop` instructions (they
   have no effect on the order of host calls).
 
   The semantics of structured MIR is the relation `ExecC` below (big-step, the
@@ -65,6 +66,8 @@ inductive Value
   | not (x : Var)
   | neg (x : Var)
   | callRt (f : Nat) (args : List Var)
+  | toStr (x : Var)                  -- `CallRuntime` of the type's `to_string` (pure, not a logged host call)
+  | append (a b : Var)               -- `CallRuntime` of `String.append` (pure)
   | call (f : Nat) (args : List Var) -- `Value::Call`: a script function (run by `EvalV`, not by `evalValue`)
   | disc (x : Var)                   -- `Value::Discriminant`
   | cloneProj (x : Var) (i : Nat) (tag : Nat)   -- `Clone` of `x.Variant#i` (`tag` names the variant when printed)
@@ -139,6 +142,10 @@ def evalValue (σ : Store) : Value → Option (Trace × Val)
   | .callRt f args =>
     let vs := args.map σ
     (hostSem f vs).map (fun v => ([⟨f, vs⟩], v))
+  | .toStr x => (display (σ x)).map (fun s => ([], .str s))
+  | .append a b => match σ a, σ b with
+    | .str s, .str t => some ([], .str (s ++ t))
+    | _, _ => none
   | .call _ _ => none   -- needs the program: see `EvalV`
   | .disc x => (discOf (σ x)).map (fun d => ([], .int d))
   | .cloneProj x i _ => (payload (σ x) i).map (fun v => ([], .int v))
@@ -458,7 +465,25 @@ def lowerE : Expr → Nat → Option (Code × Value × Nat)
     -- 6df857b); then `make_enum`: result temporary, discriminant, fields
     let (ca, xs, c) ← lowerCtorArgs args c
     pure (ca ++ [.setDisc (.t c) (.enm k (List.replicate xs.length 0))] ++ storeFields (.t c) 0 xs, .move (.t c), c + 1)
+  | .fstr ps, c => do
+    -- `f_string`: `string = ""`; every part, in source order, becomes a string (a literal, or
+    -- the value stored in a receiver temporary and passed to `to_string`), is materialised and
+    -- appended
+    let (cp, c') ← lowerParts ps (.t c) (c + 1)
+    pure ([.assign (.t c) (.const (.str ""))] ++ cp, .move (.t c), c')
   | _, _ => none
+
+/-- the parts of an f-string, appended to `acc` one after the other -/
+def lowerParts : Parts → Var → Nat → Option (Code × Nat)
+  | .nil, _, c => some ([], c)
+  | .str s rest, acc, c => do
+    let (cr, c') ← lowerParts rest acc (c + 1)
+    pure ([.assign (.t c) (.const (.str s)), .assign acc (.append acc (.t c))] ++ cr, c')
+  | .expr e rest, acc, c => do
+    let (ce, ve, c) ← lowerE e c
+    -- receiver temporary of `to_string`, then the materialised result
+    let (cr, c') ← lowerParts rest acc (c + 2)
+    pure (ce ++ [.assign (.t c) ve, .assign (.t (c + 1)) (.toStr (.t c)), .assign acc (.append acc (.t (c + 1)))] ++ cr, c')
 
 /-- the arguments of an enum constructor: each lowered, then materialised (`assign_to_var`) -/
 def lowerCtorArgs : Exprs → Nat → Option (Code × List Var × Nat)
